@@ -42,8 +42,11 @@ import kit
 LEVEL = "model_checking"
 
 
-def _sig(part, what, key=None):
+def _sig(part, what, key=None, got=None, cls=None):
     what = what.split(" (")[0]
+    # the real code panicked on the key: the key has no slot at all (in the proxy: the session goroutine dies)
+    if "panic" in what or got == [-3]:
+        return "%s/panic/%s" % ("hashtag" if "hashtag" in what else "slot", cls or _key_class(key or b""))
     if "slot" in what and key is not None and len(key) == 0:
         return "slot/empty-key"
     if part == "table":
@@ -66,8 +69,9 @@ def _collect(ctx, path, expect_parts):
         if r.get("kind") != "mismatch":
             continue
         key = bytes(r.get("key") or [])
-        ctx.violation(_sig(r["part"], r["what"], key),
-                      "%s of key %r: real code %s, specification %s" % (r["what"], key, r["got"], r["want"]),
+        ctx.violation(_sig(r["part"], r["what"], key, r["got"], r.get("class")),
+                      "%s of key %r: real code %s, specification %s" % (
+                          r["what"], key, "PANICKED" if r["got"] == [-3] else r["got"], r["want"]),
                       {"part": r["part"], "key_bytes": r.get("key"), "what": r["what"],
                        "real": r["got"], "spec": r["want"]})
     return sums
@@ -83,6 +87,8 @@ def _key_class(kb):
 
 def _route_sig(rec, stable_bad):
     """Signature of a routing decision that is not the owner of the key's slot (table filled, cluster unchanged)."""
+    if rec.get("got") == "panic":
+        return "route/panic/" + _key_class(rec["key"])     # chooseHost panicked on the key
     if (rec["lay"], tuple(rec["key"])) in stable_bad:
         return "route/" + _key_class(rec["key"])          # wrong whatever the refresh does: an input class
     if rec["phase"] in ("update", "free-running"):
@@ -158,7 +164,7 @@ def _route(ctx, brace_file, futs, pool):
     divergence = []
     for x in mis:
         x["assigned"] = x.get("assigned") or []
-        if not x["filled"]:
+        if not x["filled"] and x["got"] != "panic":
             divergence.append(x)       # before the first fill the property does not say where a key goes
             continue
         key = bytes(x["key"])
@@ -167,8 +173,10 @@ def _route(ctx, brace_file, futs, pool):
                       "the slot is %s%s" % (
                           x["lay"], x["phase"], " after " + x["after"] if x["phase"] in ("idle", "boot") else "",
                           ",".join(x["assigned"]) or "-", x["cmd"], key, x["slot"],
-                          "a random seed host (%s)" % x["got_addr"] if x["got"] == "seed" else "%s (%s)" % (x["got"], x["got_addr"]),
-                          x["want"], " [%d decisions]" % x["n"] if x.get("n") else ""),
+                          "a random seed host (%s)" % x["got_addr"] if x["got"] == "seed" else
+                          "nowhere: chooseHost PANICKED (%s)" % x["got_addr"] if x["got"] == "panic" else
+                          "%s (%s)" % (x["got"], x["got_addr"]),
+                          x["want"] if x["filled"] else "not known yet (first fill; the model says: %s)" % x["want"], " [%d decisions]" % x["n"] if x.get("n") else ""),
                       {"part": x["part"], "layout": x["lay"], "phase": x["phase"], "after": x["after"],
                        "assigned": x["assigned"], "key_bytes": x["key"], "slot": x["slot"], "cmd": x["cmd"],
                        "real": x["got"], "real_addr": x["got_addr"], "spec": x["want"], "cycle": x["cycle"]})
@@ -260,7 +268,7 @@ def _route_validate(ctx, events, stable_bad):
             elif x["op"] == "fail":
                 phase, after = ("idle" if filled else "boot"), "fail"
         if e is not None and e["op"] == "route" and filled:
-            rec = {"lay": lay, "key": e["kb"], "phase": phase, "after": after}
+            rec = {"lay": lay, "key": e["kb"], "phase": phase, "after": after, "got": e["node"]}
             ctx.violation(_route_sig(rec, stable_bad),
                           "TLC rejects the recorded routing decision: layout %s, %s (masters written so far: %s), key %r "
                           "was routed to %s" % (lay, phase, ",".join(assigned) or "-", bytes(e["kb"]), e["node"]),
@@ -384,7 +392,8 @@ def _run(ctx, pool, f_slot, f_tab, f_keys, f_route, f_full):
             raise kit.Inconclusive("SlotTrace failed without a rejection: %s" % (rt.error or rt.violated))
         idx = rt.reject[0] - 1
         e = events[idx] if 0 <= idx < len(events) else None
-        ctx.violation("slot/empty-key" if e and len(e["k"]) == 0 and e["s"] != 0 else "slot/recorded-key",
+        ctx.violation("slot/panic/" + _key_class(e["k"]) if e and (e["s"] == -3 or e["c"] == -3) else
+                      "slot/empty-key" if e and len(e["k"]) == 0 and e["s"] != 0 else "slot/recorded-key",
                       "TLC rejects what the real code computed for key %r: tag %r crc %s slot %s" % (
                           bytes(e["k"]) if e else None, bytes(e["t"]) if e else None,
                           e and e["c"], e and e["s"]),
